@@ -9,6 +9,9 @@
           DumpHidesTarget and Reconstructed (Ref); link creation rules (no chains, no double targets).
   REPLAY  (spec -> code) every emitted case is run on a fresh real parser: parse, dump, parse of the dump; the outcome
           TLC printed (checked against Ref by TLC) is compared with what the real code did.
+          Round 4: compute functions that raise, several sources with an Optional one, the parser used through
+          ActionParser, a default config file as a channel, dump(skip_default=True) and histories (the sources of the
+          returned namespace are edited and the namespace parsed again) -- all predicted by TLC and compared here.
   TRACE   (code -> spec) whatever differs, and seeded random cases beyond the bound (three links at once, longer item
           sequences, other values, parse_string), are recorded and validated by TLC against Trace_LinksParse.
 """
@@ -28,7 +31,7 @@ from ..lib.evidence import Report, machinery_failure
 
 common.check_repo_import()
 import yaml  # noqa: E402
-from jsonargparse import ActionConfigFile, ArgumentParser, Namespace  # noqa: E402
+from jsonargparse import ActionConfigFile, ActionParser, ArgumentParser, Namespace  # noqa: E402
 
 PID = "C15"
 WORKERS = int(os.environ.get("VERIF_TLC_WORKERS", "16"))
@@ -67,19 +70,27 @@ def f_lin(a, b): return a * 10 + b
 def f_grp(g): return g.x * 10 + g.y
 def f_tot(v): return 91 if v is None else 92 if v == "" else 93 if v == [] else v * 10 + 7
 def f_cls(v): return 94 if v is None else {"Src": 1, "SrcSub": 2}.get(v["class_path"].rsplit(".", 1)[-1], 3)
+def f_par(a):
+    if a == 3: raise ValueError("f_par does not accept 3")
+    return a * 10 + 7
+def f_paro(v): return v * 10 + 7       # TypeError for None, '' and []
+def f_linp(v, a): return v * 10 + a    # TypeError unless v is an integer
+def f_lino(v, a): return f_tot(v) * 10 + a
 ''', GEN.__dict__)
 for _n in ("Base", "Sub", "NoP", "BaseR", "SubR", "NoPR", "G", "Src", "SrcSub", "SrcNoL"):
     GEN.__dict__[_n].__module__ = "verif_lp_gen"
-FN = {"id": None, "one": GEN.f_one, "lin": GEN.f_lin, "grp": GEN.f_grp, "asdict": None, "tot": GEN.f_tot, "cls": GEN.f_cls}
+FN = {"id": None, "one": GEN.f_one, "lin": GEN.f_lin, "grp": GEN.f_grp, "asdict": None, "tot": GEN.f_tot, "cls": GEN.f_cls,
+      "par": GEN.f_par, "paro": GEN.f_paro, "linp": GEN.f_linp, "lino": GEN.f_lino}
 
 
-def build(shape, late=0):
+def build(shape, late=0, dcf=None):
     """gamma: shape -> top parser.  The last `late` links are not created yet: top._verif_add_late() creates them
     (a parser that has already parsed once gets another link)."""
     R = "R" if shape["req"] else ""
-    top = ArgumentParser(exit_on_error=False, default_env=True, env_prefix="APP")
-    p = ArgumentParser(exit_on_error=False, default_env=True, env_prefix="APP") if shape["sub"] else top
-    p.add_argument("--cfg", action=ActionConfigFile)
+    kw = {"default_config_files": [dcf]} if dcf else {}  # (only for shapes whose links live in the top parser)
+    top = ArgumentParser(exit_on_error=False, default_env=True, env_prefix="APP", **kw)
+    p = ArgumentParser(exit_on_error=False, default_env=True, env_prefix="APP") if shape["sub"] or shape.get("ap") else top
+    (top if shape.get("ap") else p).add_argument("--cfg", action=ActionConfigFile)
     p.add_argument("--a", type=int, default=1)
     p.add_argument("--b", type=int, default=2)
     p.add_class_arguments(GEN.G, "g")
@@ -119,6 +130,10 @@ def build(shape, late=0):
     add(shape["links"][:n])
     if shape["sub"]:
         top.add_subcommands().add_subcommand("fit", p)
+    if shape.get("ap"):  # the parser that declares the links is used through ActionParser (all links exist by then)
+        add(shape["links"][n:])
+        n = len(shape["links"])
+        top.add_argument("--inner", action=ActionParser(parser=p))
     top._verif_add_late = lambda: add(shape["links"][n:])
     return top
 
@@ -211,11 +226,16 @@ def concretise(shape, api, items, n=0, write=False):
             if it["key"] == "sl":
                 k = "s.init_args.limit"
             merge(obj, nest(k, v))
-        return None, ({"subcommand": "fit", "fit": obj} if shape["sub"] else obj)
+        return None, ({"subcommand": "fit", "fit": obj} if shape["sub"] else {"inner": obj} if shape.get("ap") else obj)
     env, argv = {}, (["fit"] if shape["sub"] else [])
+    ap = "inner." if shape.get("ap") else ""
+    dcf = {}
     for j, it in enumerate(items):
         k, v = item_value(shape, it, n + j)
-        if it["chan"] == "env":
+        k = ap + k
+        if it["chan"] == "dcf":  # the default config file of the parser (written below)
+            merge(dcf, nest(k, v))
+        elif it["chan"] == "env":
             name = "APP_" + ("FIT__" if shape["sub"] else "") + k.upper().replace(".", "__")
             env[name] = json.dumps(v) if not isinstance(v, str) else v
         elif it["chan"] == "cfg":
@@ -234,6 +254,9 @@ def concretise(shape, api, items, n=0, write=False):
                 argv.append(f"--cfg=main_{j}.yaml")
         else:
             argv.append(f"--{k}=" + (json.dumps(v) if not isinstance(v, str) else v))
+    if dcf and write:
+        with open("dcf.yaml", "w") as f:
+            f.write(yaml.safe_dump(dcf))
     return env, argv
 
 
@@ -291,6 +314,8 @@ def alpha(cfg, shape) -> dict:
     d = cfg.as_dict() if isinstance(cfg, Namespace) else (cfg or {})
     if shape["sub"]:
         d = d.get("fit") or {}
+    if shape.get("ap"):
+        d = d.get("inner") or {}
     g = d.get("g") if isinstance(d.get("g"), dict) else {}
     tg = {l["tgt"] for l in shape["links"]}
     srcs = {x for l in shape["links"] for x in l["srcs"]}
@@ -316,6 +341,7 @@ def alpha(cfg, shape) -> dict:
 PLACEHOLDER = {"a": {"k": "int", "v": 1}, "b": {"k": "int", "v": 2}, "gx": {"k": "int", "v": 1}, "gy": {"k": "int", "v": 2},
                "t": {"k": "absent"}, "d": {"k": "absent"}, "m": {"k": "absent"}, "s": {"k": "absent"}, "o": {"k": "absent"}, "mpath": {"k": "absent"}}
 ABSENT = {"k": "absent"}
+ALL_OBS = False  # thorough: every kind of observation on every case
 WORKBASE = None  # scratch directory of the run (set before the worker pool is forked)
 
 
@@ -350,11 +376,11 @@ def observe_save(parser, cfg, shape, ob):
         ob["exc"] = f"parse of the saved file: {type(ex).__name__}: {ex}"[:200]
 
 
-def observe_print(shape, env, arg, ob):
+def observe_print(shape, env, arg, ob, dcf=None):
     """--print_config on a fresh parser with the same input: what is printed"""
     import contextlib
     import io
-    parser = build(shape)
+    parser = build(shape, dcf=dcf)
     buf = io.StringIO()
     os.environ.update(env)
     try:
@@ -375,10 +401,58 @@ def observe_print(shape, env, arg, ob):
             os.environ.pop(k, None)
 
 
-def run_case(shape, api, items, n=0, do_save=True, do_print=False):
+def other(v, opt=False):
+    """the edit of a source in a returned namespace (input generation; mirrors Changed of LinksParse.tla, whose result
+    TLC emits as `hin` -- what is judged is alpha of the namespace that was really parsed again)"""
+    return ({"k": "none"} if opt else {"k": "int", "v": 4}) if v == {"k": "int", "v": 3} else {"k": "int", "v": 3}
+
+
+def observe_history(parser, cfg, shape, ob):
+    """the caller edits every source of the links in the returned namespace and parses the namespace again"""
+    c = ob["out"]["c"]
+    srcs = {x for l in shape["links"] for x in l["srcs"]}
+    pre = "fit." if shape["sub"] else ""
+    ns = cfg.clone()
+    edits = []
+    for s, key, dotted in (("a", "a", "a"), ("b", "b", "b"), ("g", "gx", "g.x")):
+        if s in srcs:
+            edits.append((dotted, plain(other(c[key]))))
+    if "o" in srcs:
+        edits.append(("o", plain(other(c["o"], True))))
+    if "sl" in srcs and c["s"]["k"] == "cls" and "limit" in c["s"]["ia"]:
+        edits.append(("s.init_args.limit", plain(other(c["s"]["ia"]["limit"], True))))
+    for k, v in edits:
+        ns[pre + k] = v
+    ob["htried"] = True
+    ob["hin"] = alpha(ns, shape)
+    ob["call"] += f"; ns = cfg.clone(); " + "; ".join(f"ns[{pre + k!r}] = {v!r}" for k, v in edits) + "; parser.parse_object(ns)"
+    try:
+        ob["hist"] = {"ok": True, "c": alpha(parser.parse_object(ns), shape)}
+    except BaseException as ex:
+        ob["hexc"] = f"{type(ex).__name__}: {ex}"[:200]
+
+
+def observe_skip_default(parser, cfg, shape, ob):
+    """dump(skip_default=True) and the parse of its text"""
+    ob["sdtried"] = True
+    try:
+        text = parser.dump(cfg, skip_default=True)
+        ob["sd"] = alpha(yaml.safe_load(text), shape)
+        ob["sdok"] = True
+    except BaseException as ex:
+        ob["exc"] = f"dump(skip_default=True): {type(ex).__name__}: {ex}"[:200]
+        return
+    try:
+        ob["sdre"] = {"ok": True, "c": alpha(parser.parse_string(text), shape)}
+    except BaseException as ex:
+        ob["exc"] = f"parse of the skip_default dump: {type(ex).__name__}: {ex}"[:200]
+
+
+def run_case(shape, api, items, n=0, do_save=True, do_print=False, do_hist=True, do_sd=True):
     """the real code on one case -> observation (runs in a scratch directory of its own)"""
     ob = {"out": {"ok": False, "c": PLACEHOLDER}, "dumped": False, "dump": PLACEHOLDER, "re": {"ok": False, "c": PLACEHOLDER}, "exc": "", "call": "",
-          "ptried": False, "pok": False, "printed": PLACEHOLDER,
+          "ptried": False, "pok": False, "printed": PLACEHOLDER, "htried": False, "hin": PLACEHOLDER, "hist": {"ok": False, "c": PLACEHOLDER},
+          "sdtried": False, "sdok": False, "sd": PLACEHOLDER, "sdre": {"ok": False, "c": PLACEHOLDER},
           "saved": False, "tried_save": False, "smain": PLACEHOLDER, "ssub": ABSENT, "ssingle": PLACEHOLDER, "sre": {"ok": False, "c": PLACEHOLDER}}
     here = os.getcwd()
     work = tempfile.mkdtemp(prefix="case-", dir=WORKBASE)
@@ -388,9 +462,12 @@ def run_case(shape, api, items, n=0, do_save=True, do_print=False):
         del os.environ[k]
     try:
         # every other case with two or more links: the last link is created after the parser has parsed once
-        late = 1 if len(shape["links"]) >= 2 and n % 2 == 1 else 0
-        parser = build(shape, late)
+        late = 1 if len(shape["links"]) >= 2 and n % 2 == 1 and not shape.get("ap") else 0
+        dcf = os.path.join(work, "dcf.yaml") if any(it["chan"] == "dcf" for it in items) else None
         env, arg = concretise(shape, api, items, n, write=True)
+        parser = build(shape, late, dcf)
+        if dcf:
+            ob["call"] = f"default config file {open(dcf).read()!r}; "
         if late:
             os.environ.update(env or {})
             try:
@@ -400,7 +477,7 @@ def run_case(shape, api, items, n=0, do_save=True, do_print=False):
             for k in (env or {}):
                 os.environ.pop(k, None)
             parser._verif_add_late()
-            ob["call"] = "(last link added after a first parse of the same input) "
+            ob["call"] += "(last link added after a first parse of the same input) "
         try:
             if api == "args":
                 os.environ.update(env)
@@ -430,6 +507,8 @@ def run_case(shape, api, items, n=0, do_save=True, do_print=False):
             ob["re"] = {"ok": True, "c": alpha(parser.parse_string(text), shape)}
         except BaseException as ex:
             ob["exc"] = f"reparse: {type(ex).__name__}: {ex}"[:200]
+        if shape.get("ap"):  # (only parse, dump and re-parse are observed through ActionParser)
+            return ob
         if do_save or ob["out"]["c"]["mpath"]["k"] == "path":
             ob["tried_save"] = True
             try:
@@ -438,7 +517,14 @@ def run_case(shape, api, items, n=0, do_save=True, do_print=False):
                 ob["exc"] = f"save: {type(ex).__name__}: {ex}"[:200]
         if do_print and api == "args":
             ob["ptried"] = True
-            observe_print(shape, env, arg, ob)
+            observe_print(shape, env, arg, ob, dcf)
+        if do_sd and not shape["sub"]:  # (skip_default with a required sub-command is a recorded defect of C01)
+            observe_skip_default(parser, cfg, shape, ob)
+        if do_hist:
+            try:
+                observe_history(parser, cfg, shape, ob)
+            except Exception as ex:
+                ob["exc"] = f"history: {type(ex).__name__}: {ex}"[:200]
         return ob
     finally:
         os.environ.update({k: v for k, v in saved.items() if v is not None})
@@ -462,7 +548,11 @@ def _case_chunk(args):
         # save() is observed whenever m carries __path__ (predicted or real) and on every fourth other case
         do_save = c["smain"]["m"]["k"] == "ref" or any(it["chan"] in ("file", "cfgfile") for it in c["items"]) or (base + ci) % 4 == 0
         try:
-            ob = run_case(c["shape"], c["api"], c["items"], base + ci, do_save=do_save, do_print=(base + ci) % 8 == 0)
+            # quick: the history on every fourth case and on every case with a partial compute function, skip_default on every
+            # eighth case; thorough: on all
+            partial = any(l["fn"] in ("par", "paro", "linp") for l in c["shape"]["links"])
+            ob = run_case(c["shape"], c["api"], c["items"], base + ci, do_save=do_save, do_print=(base + ci) % 8 == 0,
+                          do_hist=ALL_OBS or partial or (base + ci) % 4 == 2, do_sd=ALL_OBS or (base + ci) % 8 == 1)
         except Exception as ex:  # gamma could not build the case
             out.append((base + ci, False, {"gamma_error": f"{type(ex).__name__}: {ex}"[:300]}))
             continue
@@ -472,6 +562,10 @@ def _case_chunk(args):
         if same and c["ok"] and ob["tried_save"]:
             same = (ob["saved"] and ob["smain"] == c["smain"] and ob["ssub"] == c["ssub"] and ob["ssingle"] == c["dump"]
                     and ob["sre"]["ok"] == c["sreok"] and (not c["sreok"] or ob["sre"]["c"] == c["srec"]))
+        if same and c["ok"] and ob["sdtried"]:
+            same = ob["sdok"] and ob["sd"] == c["sd"] and ob["sdre"]["ok"] == c["sdreok"] and (not c["sdreok"] or ob["sdre"]["c"] == c["sdrec"])
+        if same and c["ok"] and ob["htried"]:
+            same = ob["hin"] == c["hin"] and ob["hist"]["ok"] == c["hok"] and (not c["hok"] or ob["hist"]["c"] == c["hc"])
         if ob["ptried"] and ob["out"]["ok"]:
             ob["to_trace"] = True  # the printed configuration is judged by TLC (it is not part of the prediction)
         out.append((base + ci, same, ob))
@@ -483,7 +577,9 @@ def random_case(rnd):
     I = lambda n: {"k": "int", "v": n}
     cand = [(["a"], "id", "t"), (["a"], "one", "t"), (["a", "b"], "lin", "t"), (["b", "a"], "lin", "t"), (["g"], "grp", "t"), (["g"], "asdict", "d"),
             (["a"], "id", "mp"), (["b"], "one", "mp"), (["a", "b"], "lin", "mp"), (["g"], "grp", "mp"),
-            (["sl"], "id", "t"), (["sl"], "tot", "t"), (["sl"], "id", "mp"), (["sl"], "tot", "mp"), (["s"], "cls", "t"), (["o"], "id", "t"), (["o"], "tot", "t"), (["o"], "id", "mp")]
+            (["sl"], "id", "t"), (["sl"], "tot", "t"), (["sl"], "id", "mp"), (["sl"], "tot", "mp"), (["s"], "cls", "t"), (["o"], "id", "t"), (["o"], "tot", "t"), (["o"], "id", "mp"),
+            (["a"], "par", "t"), (["b"], "par", "mp"), (["o", "a"], "lino", "t"), (["o", "b"], "lino", "mp"), (["sl", "a"], "linp", "t"), (["sl", "b"], "linp", "mp"),
+            (["o"], "paro", "t"), (["sl"], "paro", "mp")]
     links, used = [], set()
     for s, f, t in rnd.sample(cand, rnd.randint(1, 4)):
         if t not in used:
@@ -492,7 +588,9 @@ def random_case(rnd):
     srcs = {x for l in links for x in l["srcs"]}
     opt = bool(srcs & {"s", "sl", "o"})
     shape = {"links": links, "mkind": rnd.choice(["init", "grp"] if opt else ["init", "list", "grp"]) if "mp" in used else "init", "req": rnd.random() < 0.5,
-             "sub": (not opt) and rnd.random() < 0.25}
+             "sub": (not opt) and rnd.random() < 0.25, "ap": False}
+    if not opt and not shape["sub"] and shape["mkind"] != "list" and rnd.random() < 0.08:
+        shape["ap"] = True
     OV = [{"k": "none"}, I(0), I(3), I(2), {"k": "str", "v": ""}, {"k": "elist"}]
     api = rnd.choice(["args", "args", "object", "string"])
     chans = ["env", "cfg", "argv"] if api == "args" else ["obj"]
@@ -504,16 +602,17 @@ def random_case(rnd):
             sp["given"] = {k: v for k, v in sp["given"].items() if k != "p"}
         return sp
 
+    use_dcf = api == "args" and not shape["sub"] and not shape["ap"] and rnd.random() < 0.3
     for _ in range(rnd.randint(0, 6)):
-        ch = rnd.choice(chans)
+        ch = rnd.choice(chans + ["dcf"] if use_dcf else chans)
         keys = ["a", "b", "gx", "gy"] + [t for t in ("t",) if t in used]
-        if "o" in srcs and ch in ("argv", "cfg", "obj"):
+        if "o" in srcs and ch in ("argv", "cfg", "obj", "dcf"):
             keys += ["o", "o"]
         if srcs & {"s", "sl"} and ch in ("argv", "cfg", "obj"):
             keys += ["s", "s", "sl"]
-        if "mp" in used and ch != "env":
+        if "mp" in used and ch not in ("env", "dcf"):
             keys += ["m", "m"] + (["mq", "mp"] if shape["mkind"] != "list" and ch in ("argv",) else []) + (["mp"] if shape["mkind"] == "grp" and ch in ("cfg", "obj") else [])
-        if "d" in used and ch in ("cfg", "obj"):
+        if "d" in used and ch in ("cfg", "obj", "dcf"):
             keys.append("d")
         key = rnd.choice(keys)
         if key in ("a", "b", "gx", "gy"):
@@ -535,16 +634,16 @@ def random_case(rnd):
             val = {"k": "specs", "v": [fix(spec()) for _ in range(rnd.randint(0, 3))]}
         else:
             val = {"k": "spec", "c": "Base", "given": rnd.choice([{"q": I(3)}, {"p": I(5)}, {"p": I(5), "q": I(2)}])}
-        if key == "m" and ch == "argv" and shape["mkind"] != "list" and not shape["sub"] and rnd.random() < 0.4:
+        if key == "m" and ch == "argv" and shape["mkind"] != "list" and not shape["sub"] and not shape["ap"] and rnd.random() < 0.4:
             ch = rnd.choice(["file", "cfgfile"])  # the spec comes from its own file
         items.append({"chan": ch, "key": key, "val": val})
     # --s.limit on a class without that parameter is an invalid input
     if any(it["key"] == "sl" for it in items):
         items = [it for it in items if not (it["key"] == "s" and it["val"].get("c") == "SrcNoL")]
     if api == "args":
-        items.sort(key=lambda it: it["chan"] != "env")  # the environment is read first
+        items.sort(key=lambda it: {"dcf": 0, "env": 1}.get(it["chan"], 2))  # the default config file, then the environment, are read first
         seen = set()
-        items = [it for it in items if not (it["chan"] == "env" and (it["key"] in seen or seen.add(it["key"])))]
+        items = [it for it in items if not (it["chan"] in ("env", "dcf") and ((it["chan"], it["key"]) in seen or seen.add((it["chan"], it["key"]))))]
     else:  # one dict: distinct keys, and no m.q / m.p next to a whole m
         seen, keep = set(), []
         for it in items:
@@ -561,7 +660,7 @@ def _random_chunk(args):
     out = []
     for i, c in enumerate(cases):
         try:
-            out.append((base + i, c, run_case(c["shape"], c["api"], c["items"], base + i, do_print=(base + i) % 2 == 0)))
+            out.append((base + i, c, run_case(c["shape"], c["api"], c["items"], base + i, do_print=(base + i) % 2 == 0, do_sd=ALL_OBS or (base + i) % 2 == 1)))
         except Exception as ex:
             out.append((base + i, c, {"gamma_error": f"{type(ex).__name__}: {ex}"[:300]}))
     return out
@@ -621,7 +720,7 @@ def run_trace(module, path, expect):
 
 # ------------------------------------------------------------------------------------- main
 def shape_tag(sh) -> str:
-    return sh["mkind"] + ":" + "+".join(l["tgt"] + "<" + l["fn"] for l in sh["links"]) + (":req" if sh["req"] else "") + (":sub" if sh["sub"] else "")
+    return sh["mkind"] + ":" + "+".join(l["tgt"] + "<" + l["fn"] for l in sh["links"]) + (":req" if sh["req"] else "") + (":sub" if sh["sub"] else "") + (":ap" if sh.get("ap") else "")
 
 
 def main(argv):
@@ -633,10 +732,13 @@ def main(argv):
         "the configuration is observed through Namespace.as_dict(); the dump is observed by reading the dumped yaml text back with yaml.safe_load",
         "the class of a parse failure is not compared (C03); a failure of any kind counts as 'rejected'",
         "the rest of the parse pipeline is modelled as the fold of the supplied items in precedence order (environment before command line, config and options left to right); precedence itself is C04's property",
-        "sources of class type (links ignored when the source class is absent), print_config and sources supplying null are not covered",
+        "a failed parse has no observable configuration: its FINAL source values are taken from the fold of the supplied items (Pre of LinksParse.tla) when the spec decides whether a compute function had to raise",
+        "quick tier: the history (edit the sources of the returned namespace, parse it again) is observed on every fourth case and on every case with a partial compute function, dump(skip_default=True) on every eighth case and never below a sub-command (recorded C01 defect); thorough: on every case",
+        "through ActionParser only parse, dump and re-parse are observed",
         "every case runs on a freshly built parser in a worker process whose APP_* environment is restored after the case",
     ]
-    global WORKBASE
+    global WORKBASE, ALL_OBS
+    ALL_OBS = tier == "thorough"
     tmp = common.scratch("c15")
     WORKBASE = str(tmp)  # the workers (forked next) run every case in a directory of its own below it
     pool = mp.get_context("fork").Pool(NPROC)
@@ -663,7 +765,7 @@ def main(argv):
 
         # ---------------------------------------------------------------- REPLAY
         obs = []  # (case, observation, origin)
-        n_same = n_dev = n_print = 0
+        n_same = n_dev = n_print = n_apdev = n_subdev = n_dcfdev = 0
         fatal = None
         chunks = [(cases[i:i + 250], i) for i in range(0, len(cases), 250)]
         for res in pool.imap_unordered(_case_chunk, chunks):
@@ -676,6 +778,18 @@ def main(argv):
                     n_same += 1 if same else 0
                     n_print += 1
                     obs.append((c, ob, "model"))
+                elif same and c["apdev"]:
+                    n_apdev += 1
+                    rep.violation("actionparser-drops-links", "the parse links of a parser that is used through ActionParser are not applied",
+                                  {"shape": c["shape"], "api": c["api"], "items": c["items"], "python": ob["call"] + "; parser.dump(cfg)", "observed": ob, "origin": "model"})
+                elif same and c["subdev"]:
+                    n_subdev += 1
+                    rep.violation("fn-called-on-nonfinal-sources:subcommand-env", "inside a sub-command a compute_fn is called on the sub-command's defaults + environment (not the final sources) and its exception fails the parse",
+                                  {"shape": c["shape"], "api": c["api"], "items": c["items"], "python": ob["call"], "observed": ob, "origin": "model"})
+                elif same and c["dcfdev"]:
+                    n_dcfdev += 1
+                    rep.violation("fn-called-on-nonfinal-sources:default-config-file", "a compute_fn is called on the declared defaults + default config file (not the final sources) and its exception fails every parse",
+                                  {"shape": c["shape"], "api": c["api"], "items": c["items"], "python": ob["call"], "observed": ob, "origin": "model"})
                 elif same and c["dev"]:
                     n_dev += 1
                     rep.violation("dump-keeps-target:list-item", "dump() keeps the link target inside the items of a list of classes",
@@ -692,6 +806,12 @@ def main(argv):
         rep.extra["cases_emitted"] = len(cases)
         rep.extra["cases_identical_to_prediction"] = n_same
         rep.extra["cases_in_recorded_deviation"] = n_dev
+        rep.extra["cases_in_actionparser_deviation"] = n_apdev
+        rep.extra["cases_in_subcommand_env_deviation"] = n_subdev
+        rep.extra["cases_in_default_config_file_deviation"] = n_dcfdev
+        rep.extra["cases_with_a_default_config_file"] = sum(1 for c in cases if any(it["chan"] == "dcf" for it in c["items"]))
+        rep.extra["cases_where_a_compute_fn_raises"] = sum(1 for c in cases if c["raises"])
+        rep.extra["histories_rejected_by_spec"] = sum(1 for c in cases if c["ok"] and not c["shape"]["ap"] and not c["hok"])
         rep.extra["cases_with_print_config_sent_to_tlc"] = n_print
         rep.extra["cases_rejected_by_spec"] = sum(1 for c in cases if not c["ok"])
         rep.extra["cases_supplying_the_target"] = sum(1 for c in cases if any(it["key"] in ("t", "d", "mp") or (it["key"] == "m" and "\"p\"" in json.dumps(it["val"])) for it in c["items"]))
@@ -730,7 +850,9 @@ def main(argv):
             f = tmp / f"trace{cidx}.json"
             f.write_text(json.dumps({"obs": [{"shape": c["shape"], "items": c["items"], "out": ob["out"], "dumped": ob["dumped"], "dump": ob["dump"], "re": ob["re"],
                                               "ptried": ob["ptried"] and ob["out"]["ok"], "pok": ob["pok"], "printed": ob["printed"],
-                                              "tried": ob["tried_save"], "saved": ob["saved"], "smain": ob["smain"], "ssub": ob["ssub"], "ssingle": ob["ssingle"], "sre": ob["sre"]}
+                                              "tried": ob["tried_save"], "saved": ob["saved"], "smain": ob["smain"], "ssub": ob["ssub"], "ssingle": ob["ssingle"], "sre": ob["sre"],
+                                              "htried": ob["htried"], "hin": ob["hin"], "hout": ob["hist"],
+                                              "sdtried": ob["sdtried"], "sdok": ob["sdok"], "sd": ob["sd"], "sdre": ob["sdre"]}
                                              for c, ob, _o in part], "links": lc if cidx == 0 else []}))
             tr = run_trace("Trace_LinksParse", f, len(part) + (len(lc) if cidx == 0 else 0))
             rep.add_tlc(f"Trace_LinksParse[{cidx}]", tr)
@@ -769,6 +891,12 @@ def main(argv):
             for cl in ref:
                 if cl == "ref-dev-list-item-as-alg":
                     rep.violation("dump-keeps-target:list-item", "dump() keeps the link target inside the items of a list of classes", case)
+                elif cl == "ref-dev-sub-env-as-alg":
+                    rep.violation("fn-called-on-nonfinal-sources:subcommand-env", "inside a sub-command a compute_fn is called on the sub-command's defaults + environment (not the final sources) and its exception fails the parse", case)
+                elif cl == "ref-dev-dcf-as-alg":
+                    rep.violation("fn-called-on-nonfinal-sources:default-config-file", "a compute_fn is called on the declared defaults + default config file (not the final sources) and its exception fails every parse", case)
+                elif cl == "ref-dev-ap-as-alg":
+                    rep.violation("actionparser-drops-links", "the parse links of a parser that is used through ActionParser are not applied", case)
                 else:
                     rep.violation(f"{cl[4:]}:{shape_tag(c['shape'])}", f"links applied on parse: {cl}", case)
         if RETRIED:
